@@ -7,9 +7,10 @@ Property theorems only (helpers: Ssv/Proofs/Runner.lean; model: Ssv/Model/Runner
 controller's decided path and instance container are modelled), `foreign` (message for another validator or role — the
 routing front). Every `KeyManager.SignBeaconObject` call is an output event `sign tag root epoch domain`.
 The window theorems hold for EVERY state and input, hence for every input sequence from any state.
-The "at most once per decided object" clause is FALSE of the code as it stands
-(`C03_at_most_once_full_refuted`; reproduced on the real runner: known finding) and proved under the side condition
-that the controller still holds the runner's instance object (`C03_at_most_once_partial`).
+The "at most once per decided object" clause is proved in FULL (`C03_at_most_once`) for the code since fix c50569811
+(`prevDecided` also holds when the duty already took a decided value). The behaviour before the fix is kept as
+`processConsOld` / `stepOld` / `runOld`; its refutation `C03_at_most_once_old_refuted` is a regression lemma (the
+witness is replayed on the real runner as corpus/C03/runner_resign_after_eviction.ops).
 -/
 import Ssv.Proofs.Runner
 
@@ -60,12 +61,13 @@ theorem C03_tie_base_helpers_do_not_sign :
     Gen.calls_base_registerTimeoutHandler_signs = [] := by decide
 
 /-- guard order: duty admission before state reset before execution; in `baseConsensusMsgProcessing` the controller runs
-    first, then the running-duty check, `didDecideCorrectly`, decoding, and the value check — all before
+    first (after `prevDecided` was read from the instance object and — second `hasRunningDuty` — from the duty's decided
+    value, fix c50569811), then the running-duty check, `didDecideCorrectly`, decoding, and the value check — all before
     `ProcessConsensus` signs; partial-signature validation order; routing by validator key and role -/
 theorem C03_tie_guard_order :
     Gen.calls_baseStartNewDuty = ["ShouldProcessDuty", "baseSetupForNewDuty", "executeDuty"] ∧
     Gen.calls_baseStartNewNonBeaconDuty = ["ShouldProcessNonBeaconDuty", "baseSetupForNewDuty", "executeDuty"] ∧
-    Gen.calls_baseConsensusMsgProcessing = ["hasRunningDuty", "IsDecided", "ProcessMsg", "compactInstanceIfNeeded",
+    Gen.calls_baseConsensusMsgProcessing = ["hasRunningDuty", "IsDecided", "hasRunningDuty", "ProcessMsg", "compactInstanceIfNeeded",
       "hasRunningDuty", "didDecideCorrectly", "Decode", "validateDecidedConsensusData"] ∧
     Gen.calls_validateDecidedConsensusData = ["Encode", "GetValCheckF"] ∧
     Gen.calls_decide = ["Encode", "GetValCheckF", "StartNewInstance", "InstanceForHeight", "registerTimeoutHandler"] ∧
@@ -79,10 +81,12 @@ theorem C03_tie_guard_order :
     Gen.src_didDecideCorrectly = "1a723f6c78961c4d" ∧ Gen.src_ShouldProcessDuty = "c9515eb6ef4002c7" ∧
     Gen.src_ShouldProcessNonBeaconDuty = "b46226dfda067fe4" := by decide
 
-/-- the controller's paths the model follows, and its instance container: capacity 2, `addNewInstance` as modelled -/
+/-- the controller's paths the model follows, and its instance container: capacity 2, `addNewInstance` as modelled
+    (the first `addNewInstance` in `UponDecided` re-inserts an instance reloaded from storage: full nodes only, the model
+    is the non-full node where `InstanceForHeight` = `FindInstance`) -/
 theorem C03_tie_controller :
     Gen.calls_Controller_ProcessMsg = ["BaseMsgValidation", "IsDecidedMsg", "UponDecided", "isFutureMessage", "UponExistingInstanceMsg"] ∧
-    Gen.calls_Controller_UponDecided = ["ValidateDecided", "InstanceForHeight", "NewInstance", "addNewInstance", "IsDecided"] ∧
+    Gen.calls_Controller_UponDecided = ["ValidateDecided", "InstanceForHeight", "addNewInstance", "NewInstance", "addNewInstance", "IsDecided"] ∧
     Gen.calls_Controller_StartNewInstance = ["GetValueCheckF", "FindInstance", "addAndStoreNewInstance", "Start", "forceStopAllInstanceExceptCurrent"] ∧
     Gen.ctrl_InstanceContainerDefaultCapacity = 2 ∧ Gen.src_addNewInstance = "962042f751b883ca" := by decide
 
@@ -94,7 +98,7 @@ theorem C03_tie_controller :
     (b) an object contained in the value `v` that the controller reports decided for this very consensus message — a
         message carrying the controller's identifier, `v` backed by a valid quorum certificate (`ValidateDecided`) or by
         the instance's own decision — while a duty is running (not finished), the reported height is the height of the
-        duty's running instance, that instance object was not decided before, `v` decodes and PASSES the duty's value
+        duty's running instance, that instance object was not decided before and the duty holds no decided value yet, `v` decodes and PASSES the duty's value
         check; signed with the epoch of `v`'s duty slot and the role's post-consensus domain. -/
 theorem C03_sign_window (st : RSt) (i : In) (e : Ev) (he : e ∈ (step st i).2.2) (hs : e.isSign = true) :
     (∃ slot preObjs iok, i = .start slot preObjs iok ∧ (step st i).2.1 = true ∧ st.role.signsAtStart = true ∧
@@ -104,7 +108,7 @@ theorem C03_sign_window (st : RSt) (i : In) (e : Ev) (he : e ∈ (step st i).2.2
         c.idOk = true ∧ h = c.height ∧ v = c.value ∧
         ((c.isDecided = true ∧ c.valid = true) ∨ (c.isDecided = false ∧ c.instDecides = true ∧ c.instErr = false)) ∧
         st.duty = some d ∧ d.finished = false ∧ d.running = some rid ∧ heightOf (ctlProcess st c).1 rid = h ∧
-        runningDecided st = false ∧ st.role.hasConsensus = true ∧
+        prevDecided st = false ∧ st.role.hasConsensus = true ∧
         v.decodeOk = true ∧ v.vcOk = true ∧
         ∃ o ∈ v.objs, e = .sign (.decided h) o (epochOf v.slot) st.role.postDomain) := by
   cases i with
@@ -117,7 +121,7 @@ theorem C03_sign_window (st : RSt) (i : In) (e : Ev) (he : e ∈ (step st i).2.2
   | «foreign» => simp [step] at he
   | cons c =>
     right
-    obtain ⟨h, v, d, rid, hctl, hd, hfin, hr, hh, hprev, hcons, hdec, hvc, _, _, _, o, ho, rfl⟩ := processCons_sign st c e he hs
+    obtain ⟨h, v, d, rid, hctl, hd, hfin, hr, hh, hprev, hcons, hdec, hvc, _, _, _, o, ho, rfl⟩ := processConsG_sign (prevDecided st) st c e he hs
     obtain ⟨s1, s2, s3, s4⟩ := ctlProcess_decided_sound st c h v hctl
     exact ⟨c, h, v, d, rid, rfl, hctl, s1, s2, s3, s4, hd, hfin, hr, hh, hprev, hcons, hdec, hvc, o, ho, rfl⟩
 
@@ -161,12 +165,12 @@ theorem C03_no_sign_from_partial_sig_or_foreign (st : RSt) (i : In)
   · simp [step]
 
 /-- consensus messages for another height than the running instance's, after the duty finished, before any duty started,
-    with a foreign identifier, or not carrying a valid first decision never cause a signature -/
+    with a foreign identifier, not carrying a valid first decision, or when the duty already took a decided value never cause a signature -/
 theorem C03_no_sign_outside_running_height (st : RSt) (c : ConsIn)
     (h : st.duty = none ∨ (∃ d, st.duty = some d ∧ d.finished = true) ∨ (∃ d, st.duty = some d ∧ d.running = none) ∨
          (∃ d rid, st.duty = some d ∧ d.running = some rid ∧ heightOf (ctlProcess st c).1 rid ≠ c.height) ∨
          c.idOk = false ∨ (c.isDecided = true ∧ c.valid = false) ∨ (c.isDecided = false ∧ c.instDecides = false) ∨
-         runningDecided st = true) :
+         prevDecided st = true) :
     ∀ e ∈ (step st (.cons c)).2.2, e.isSign = false := by
   intro e he
   cases hs : e.isSign with
@@ -194,9 +198,18 @@ theorem C03_no_sign_outside_running_height (st : RSt) (c : ConsIn)
 
 /-! ## at most once per decided object -/
 
-/-- FULL statement: over every input sequence from the initial state, no (decision height, object) pair is signed twice -/
+/-- FULL statement: over every input sequence from the initial state (decided values list each contained object once),
+    no (decision height, object) pair is signed twice -/
 def C03_at_most_once_full : Prop :=
-  ∀ (role : Role) (n : Nat) (ins : List In), (decidedSigns (run (init role n) ins)).Nodup
+  ∀ (role : Role) (n : Nat) (ins : List In), (∀ i ∈ ins, ∀ c, i = .cons c → c.value.objs.Nodup) →
+    (decidedSigns (run (init role n) ins)).Nodup
+
+/-- PROVED in full for the current code (fix c50569811). Invariant: a duty that signed holds a decided value, which makes
+    `prevDecided` true until the next duty start; a later duty runs at a strictly greater height (or, for slot 0 with the
+    controller still at height 0, cannot start an instance because one of height 0 is still stored). -/
+theorem C03_at_most_once : C03_at_most_once_full := by
+  intro role n ins hobjs
+  simpa using run_decidedSigns_nodup ins (init role n) [] List.nodup_nil (Inv.init role n) hobjs
 
 /-- a valid certificate for value 1 (one object, root 7) at height `h` -/
 def C03_witness_cert (h : Nat) : In :=
@@ -204,61 +217,42 @@ def C03_witness_cert (h : Nat) : In :=
           value := { id := 1, decodeOk := true, vcOk := true, slot := 12, objs := [7], getOk := true },
           instDecides := false, instErr := false }
 
-/-- witness: attester duty for slot 12 running; certificates for heights 13 and 14 arrive (the node lags behind) and push
-    instance 12 out of the controller's two-slot container; after that every certificate for height 12 creates a fresh,
-    never-stored instance, is a "first decision" again, and the runner's own instance object stays undecided:
-    the same certificate delivered twice is signed twice. -/
+/-- the witness of the repaired defect: attester duty for slot 12 running; certificates for heights 13 and 14 arrive (the
+    node lags behind) and push instance 12 out of the controller's two-slot container; after that every certificate for
+    height 12 creates a fresh, never-stored instance and is a "first decision" again -/
 def C03_witness : List In :=
   [.start 12 [] true, C03_witness_cert 13, C03_witness_cert 14, C03_witness_cert 12, C03_witness_cert 12]
 
-theorem C03_at_most_once_full_refuted : ¬ C03_at_most_once_full := by
+theorem C03_witness_objs : ∀ i ∈ C03_witness, ∀ c, i = .cons c → c.value.objs.Nodup := by
+  intro i hi c hc
+  subst hc
+  simp only [C03_witness, C03_witness_cert, List.mem_cons, List.not_mem_nil, or_false] at hi
+  rcases hi with h | h | h | h | h
+  · cases h
+  all_goals (injection h with h; subst h; decide)
+
+/-- the same statement for the code BEFORE the fix -/
+def C03_at_most_once_old_full : Prop :=
+  ∀ (role : Role) (n : Nat) (ins : List In), (∀ i ∈ ins, ∀ c, i = .cons c → c.value.objs.Nodup) →
+    (decidedSigns (runOld (init role n) ins)).Nodup
+
+/-- REGRESSION lemma: before fix c50569811 the clause was false — the same certificate delivered twice was signed twice
+    because `didDecideCorrectly` only consulted the runner's own, never updated, instance object -/
+theorem C03_at_most_once_old_refuted : ¬ C03_at_most_once_old_full := by
   intro h
-  have := h .attester 4 C03_witness
+  have := h .attester 4 C03_witness C03_witness_objs
   revert this
   decide
 
-/-- what the witness does on the model -/
+/-- what the witness does: signed twice before the fix, once now; the container holds heights 14 and 13 -/
 theorem C03_witness_run :
-    decidedSigns (run (init .attester 4) C03_witness) = [(12, 7), (12, 7)] ∧
+    decidedSigns (runOld (init .attester 4) C03_witness) = [(12, 7), (12, 7)] ∧
+    decidedSigns (run (init .attester 4) C03_witness) = [(12, 7)] ∧
     (finalState (init .attester 4) C03_witness).stored.map (heightOf (finalState (init .attester 4) C03_witness)) = [14, 13] := by
   decide
 
-/-- PARTIAL: if, when a decision for the running duty is signed, the controller's instance for the message height IS the
-    runner's own instance object (it has not been pushed out of the container), then that object is marked decided and
-    no later consensus, post-consensus or foreign message (nor a pre-consensus message for the roles without a
-    pre-consensus phase) — in any number and order, until the next duty is started — causes another signature.
-    Missing for the full statement: `UponDecided` re-creates (and, when the container is full, immediately drops) an
-    instance for a height that was evicted, reports it as a first decision, and `didDecideCorrectly` consults only the
-    runner's own, never updated, instance object. -/
-theorem C03_at_most_once_partial (st : RSt) (c : ConsIn)
-    (hkept : ∀ d rid, st.duty = some d → d.running = some rid →
-        (∃ i, instOf st rid = some i) ∧ findInst st c.height = some rid)
-    (hsigned : ∃ e ∈ (step st (.cons c)).2.2, e.isSign = true)
-    (ins : List In) (hq : ∀ i ∈ ins, i.quiet st.role = true) :
-    ∀ p ∈ run (step st (.cons c)).1 ins, ∀ e ∈ p.2, e.isSign = false := by
-  obtain ⟨e, he, hs⟩ := hsigned
-  have hRD := processCons_sign_RD st c hkept e he hs
-  apply run_quiet _ ins _ hRD
-  intro i hi
-  have hrole := step_role st (.cons c)
-  simp only [step] at hrole
-  rw [hrole]
-  exact hq i hi
-
-/-- the side condition and the hypothesis are satisfiable: a certificate for the running height while instance 12 is stored -/
-example :
-    let st := (step (init .attester 4) (.start 12 [] true)).1
-    (∀ d rid, st.duty = some d → d.running = some rid → (∃ i, instOf st rid = some i) ∧ findInst st 12 = some rid) ∧
-    (∃ e ∈ (step st (C03_witness_cert 12)).2.2, e.isSign = true) ∧
-    decidedSigns (run st [C03_witness_cert 12, C03_witness_cert 13, C03_witness_cert 14, C03_witness_cert 12, C03_witness_cert 12]) = [(12, 7)] := by
-  refine ⟨?_, ⟨.sign (.decided 12) 7 0 .attester, by decide, rfl⟩, by decide⟩
-  intro d rid hd hr
-  have hd' : (step (init .attester 4) (.start 12 [] true)).1.duty = some { freshDuty 12 [] with running := some 0 } := rfl
-  rw [hd'] at hd
-  injection hd with hd
-  subst hd
-  simp only [Option.some.injEq] at hr
-  subst hr
-  exact ⟨⟨_, rfl⟩, rfl⟩
+/-- the hypothesis of `C03_at_most_once` is satisfiable with a sequence that signs -/
+example : (∀ i ∈ C03_witness, ∀ c, i = .cons c → c.value.objs.Nodup) ∧
+    decidedSigns (run (init .attester 4) C03_witness) ≠ [] := ⟨C03_witness_objs, by decide⟩
 
 end Ssv.Runner
